@@ -70,8 +70,62 @@ fn fresh_processes(ctx: &mut Ctx) {
     ctx.count("fresh_processes_with_duplicates", dup_processes);
 }
 
+// Lexical normal form of a path (what the file system will resolve, symlinks aside): "." and empty components dropped.
+fn normal(path: &str) -> String {
+    let abs = path.starts_with('/');
+    let parts: Vec<&str> = path.split('/').filter(|c| !c.is_empty() && *c != ".").collect();
+    format!("{}{}", if abs { "/" } else { "" }, parts.join("/"))
+}
+
+// Different spellings of the same location, and name parts next to the file-name length limit: the returned paths must
+// still name distinct files, whichever thread used whichever spelling.
+fn spellings(ctx: &mut Ctx) {
+    if cfg!(miri) { return; }
+    let tmp = std::env::temp_dir().to_string_lossy().to_string();
+    let rounds = ctx.size(6, 40);
+    let mut total = 0u64;
+    for r in 0..rounds {
+        if !ctx.begin_case() { continue; }
+        let base = format!("vmon-sp{}", r % 3);
+        let long_a: String = std::iter::repeat('L').take(243 + r % 10).collect();
+        let parts: Vec<String> = if r % 2 == 0 {
+            vec![base.clone(), format!("./{}", base), format!(".//{}", base), format!("{}/{}", tmp, base), format!("{}//{}", tmp, base), base.clone()]
+        } else {
+            vec![long_a.clone(), long_a.clone(), std::iter::repeat('M').take(300).collect(), long_a.clone()]
+        };
+        let threads = parts.len();
+        let calls = 150 + 50 * (r % 4);
+        let barrier = Arc::new(Barrier::new(threads));
+        let mut handles = Vec::new();
+        for t in 0..threads {
+            let (b, part) = (barrier.clone(), parts[t].clone());
+            handles.push(std::thread::spawn(move || { b.wait(); (0..calls).map(|_| serialize::temp_file_name(&part).to_string_lossy().to_string()).collect::<Vec<String>>() }));
+        }
+        let mut seen: HashSet<String> = HashSet::new();
+        let mut dup: Option<String> = None;
+        let mut missing: Option<String> = None;
+        for (t, h) in handles.into_iter().enumerate() {
+            match h.join() {
+                Ok(v) => for p in v {
+                    total += 1;
+                    ctx.checks += 1;
+                    let key = parts[t].rsplit('/').next().unwrap_or("");
+                    if !p.rsplit('/').next().unwrap_or("").contains(key) && missing.is_none() { missing = Some(format!("{} (name part {:?})", p, parts[t])); }
+                    if !seen.insert(normal(&p)) && dup.is_none() { dup = Some(p); }
+                },
+                Err(_) => ctx.violation("temp_file_name!panic", format!("a thread panicked with name part {:?}", parts[t])),
+            }
+        }
+        if let Some(p) = dup { ctx.violation("temp_file_name.duplicate.spelling", format!("two calls returned paths naming the same file: {} (name parts {:?}, {} threads x {} calls)", p, parts.iter().map(|x| if x.len() > 40 { format!("{}…[{} bytes]", &x[..8], x.len()) } else { x.clone() }).collect::<Vec<_>>(), threads, calls)); }
+        if let Some(p) = missing { ctx.violation("temp_file_name.name_part", format!("path does not contain the name part: {}", if p.len() > 200 { format!("{}…", &p[..200]) } else { p })); }
+        ctx.case(hash64(&[0xF6, r as u64, seen.len() as u64]), true);
+    }
+    ctx.count("spelling_names", total);
+}
+
 pub fn run(ctx: &mut Ctx) {
     fresh_processes(ctx);
+    spellings(ctx);
     let rounds = ctx.size(50, 500);
     let mut all: HashSet<String> = HashSet::new();
     let mut total_switches = 0u64;
